@@ -67,8 +67,13 @@ def main(argv):
     shutil.copytree(os.path.join(keep, "evidence"), os.path.join(ROOT, "evidence"))
     shutil.rmtree(keep)
     sh(f"cd {ROOT} && /venv/bin/python -m vlib.regen")
-    with open(os.path.join(BENIGN, "results.json"), "w") as f:
-        json.dump(results, f, indent=1)
+    path = os.path.join(BENIGN, "results.json")
+    merged = json.load(open(path)) if os.path.exists(path) else {}
+    for k, v in results.items():   # keep the outcomes of checks that were not run this time
+        old = merged.get(k, {})
+        merged[k] = {"files": v.get("files", old.get("files")), "checks": {**old.get("checks", {}), **v.get("checks", {})}}
+    with open(path, "w") as f:
+        json.dump(merged, f, indent=1, sort_keys=True)
     return 0
 
 
